@@ -100,8 +100,9 @@ def resolve(spec, results, host=None, cache=None):
         if '$ctx' in spec:
             i = spec['$ctx']
             if 0 <= i < len(results) and results[i][0] == 'ok' and \
-                    hasattr(results[i][1], 'context') and \
-                    results[i][1].context is not None:
+                    hasattr(results[i][1], 'context') and (
+                        results[i][1].context is not None or
+                        spec.get('raw')):
                 return results[i][1].context
             return tuple(spec.get('fake', ['no-such-context', 'root/cimv2']))
         if '$val' in spec:
@@ -462,8 +463,12 @@ class OpGen:
         if kind in ('Iter', 'Open'):
             name = r.choice(ITER_OPS if kind == 'Iter' else OPEN_OPS)
             if 'Query' in name:
-                a['FilterQueryLanguage'] = r.choice(['WQL', 'DMTF:CQL'])
-                a['FilterQuery'] = 'select * from C0'
+                # (the mock accepts DMTF:FQL only; with mg.enable_query() the
+                # query is answered, otherwise it ends in NOT_SUPPORTED)
+                a['FilterQueryLanguage'] = r.choice(['WQL', 'DMTF:CQL',
+                                                     'DMTF:FQL', 'DMTF:FQL'])
+                a['FilterQuery'] = 'select * from %s' % r.choice(
+                    ['C0', self.m['classes'][0]['name']])
                 ns = self.ns()
                 if ns is not None:
                     a['namespace'] = ns
@@ -519,10 +524,21 @@ class OpGen:
                 pname = r.choice(['PullInstancesWithPath',
                                   'PullInstancePaths', 'PullInstances'])
             ctx = {'$ctx': i}
+            moc = r.choice([0, 1, 1, 2, 5, 100])
+            if getattr(self, 'client_invalid', False) and r.random() < 0.2:
+                # arguments the client itself rejects: the context of an
+                # exhausted enumeration (None), a malformed context, an
+                # invalid MaxObjectCount
+                k2 = r.random()
+                if k2 < 0.5:
+                    ctx = {'$ctx': i, 'raw': True}
+                elif k2 < 0.7:
+                    ctx = {'$ctx': i, 'fake': ['only-one-item']}
+                else:
+                    moc = r.choice([-1, None, 'x'])
             if kind == 'CloseEnumeration':
                 return {'op': kind, 'p': [ctx]}
-            return {'op': pname,
-                    'p': [ctx, r.choice([0, 1, 1, 2, 5, 100])]}
+            return {'op': pname, 'p': [ctx, moc]}
         if kind in ('EnumerateClasses', 'EnumerateClassNames'):
             ns = self.ns()
             if ns is not None:
@@ -603,11 +619,13 @@ class OpGen:
 
 
 def gen_program(r, model, default_ns, n, valid_only=False,
-                switch_default_ns=False, with_export=False):
+                switch_default_ns=False, with_export=False,
+                client_invalid=False):
     """with_export: the program may contain ExportIndication (the peer then
     also plays the role of a listener); only for worlds without a direct
     replica, because FakedWBEMConnection has no export path."""
     g = OpGen(r, model, default_ns, valid_only)
+    g.client_invalid = client_invalid
     ops = []
     for i in range(n):
         if with_export and r.random() < 0.06:
